@@ -9,5 +9,15 @@ CHECKS = {
         "note": "trusted: vmon/oracles/timescales.py (IERS readme columns, fixed offsets, Almanac TDB-TT), python datetime microsecond arithmetic; leap seconds excluded by 2-minute windows as the quantifier says",
         "technique": "reference-model monitor (own IERS table parser, integer-microsecond range model) over generated instants",
     },
+    "C04": {
+        "text": "Differential (metamorphic) monitor: for generated instants and orbits, 20 date-consuming public operations (SGP4, native SGP4, Kepler, J2, numerical, Clohessy-Wiltshire, none, Sun, Moon, 9 frame conversions, station, ephemeris interpolation, event detection, TLE writing, CCSDS OPM/OEM/maneuver round trips, Lambert, LTAN, beta) are run with all-UTC labels and with the argument date and/or the epoch relabelled in each of the 6 scales (relabelled dates built from an independent IERS parser); results must agree within the time resolution. Same cases under real IERS tables and under a constant EOP record; endless loops are observed through logical step budgets. Held-on-observed; one open known finding (EOP day lookup by label).",
+        "note": "trusted: the all-UTC run as baseline (differential), vmon/oracles/timescales.py for relabelling; tolerances = speed x time resolution (5 us; 100 us for quantities the library derives from a float Julian date)",
+        "technique": "differential-history / metamorphic monitor over relabelled dates, with step-budget probes",
+    },
+    "C20": {
+        "text": "Invariant hook on the real Node.__add__: after EVERY link insertion all ordered node pairs are checked against a BFS reference (route exists iff connected, path is a chain of existing links, unique tree chain / shortest chain, steps() consistent). Exhaustive over every unlabelled tree shape with <= 6 (quick) / <= 7 (thorough) nodes x every insertion order x every orientation, sampled for 7 / 8 nodes; every connected labelled graph on <= 5 / <= 6 nodes with sampled orders. Real registries: random interleavings of station / orbit-frame / body-frame registrations; conversions between pre-existing frames must stay bitwise identical and every new frame must round-trip to every old one. One open known finding (non-shortest route on cyclic graphs).",
+        "note": "trusted: BFS reference (vmon/oracles/graph.py); label equivariance of Node (names compared for equality only) lets unlabelled shapes with permuted names stand for labelled trees; 8-node trees are sampled, not exhaustive",
+        "technique": "invariant monitor hooked on Node.__add__ over exhaustively enumerated insertion histories + differential monitor on the real frame registries",
+    },
 }
 NOT_APPLICABLE = {}
